@@ -184,12 +184,24 @@ func (o *objectGoMapReflect) setForeignIdx(idx valueInt, val, receiver Value, th
 	return o._setForeignIdx(idx, trueValIfPresent(o.hasOwnPropertyIdx(idx)), val, receiver, throw)
 }
 
+func (o *objectGoMapReflect) _define(key reflect.Value, descr PropertyDescriptor, throw bool) bool {
+	val := descr.Value
+	if val == nil {
+		// no [[Value]] in the descriptor: a new property is undefined, an existing one keeps its value
+		if key.IsValid() && o.fieldsValue.MapIndex(key).IsValid() {
+			return true
+		}
+		val = _undefined
+	}
+	return o._put(key, val, throw)
+}
+
 func (o *objectGoMapReflect) defineOwnPropertyStr(name unistring.String, descr PropertyDescriptor, throw bool) bool {
 	if !o.val.runtime.checkHostObjectPropertyDescr(name, descr, throw) {
 		return false
 	}
 
-	return o._put(o.strToKey(name.String(), throw), descr.Value, throw)
+	return o._define(o.strToKey(name.String(), throw), descr, throw)
 }
 
 func (o *objectGoMapReflect) defineOwnPropertyIdx(idx valueInt, descr PropertyDescriptor, throw bool) bool {
@@ -197,7 +209,7 @@ func (o *objectGoMapReflect) defineOwnPropertyIdx(idx valueInt, descr PropertyDe
 		return false
 	}
 
-	return o._put(o.toKey(idx, throw), descr.Value, throw)
+	return o._define(o.toKey(idx, throw), descr, throw)
 }
 
 func (o *objectGoMapReflect) hasOwnPropertyStr(name unistring.String) bool {
